@@ -19,7 +19,11 @@ RULE = ("case = (loader in {split-degree, delta}, probs over 1..4 clique topolog
         "enumeration over (loader, #topologies, lo, width, target position) and seeded "
         "random cases, then a malformed stream (no topology, empty motif_sizes, W_k = 0, all-zero fp, empty range) "
         "whose expected result is the model's exception class; each case observes three tables (constructor, "
-        "second create_jdd() on the same object, load_joint_degree dispatch); non-trivial = no exception, at "
+        "second create_jdd() on the same object, load_joint_degree dispatch); a quarter of the random cases are "
+        "HISTORIES on one object: the caller edits the same probs / motif_sizes / bound lists and fp's table in "
+        "place and / or damages the returned table (clear, bogus entries, setter, mutating the rows the generator "
+        "returned), then calls create_jdd() again - every table is judged against the current contents; the "
+        "caller's input objects are compared before / after every call; non-trivial = no exception, at "
         "least two degrees in the range and at least one degree with two or more admissible splits; distinct by "
         "the full case")
 EXHAUSTIVE = {"quick": True, "thorough": True}
@@ -84,6 +88,25 @@ def corpus():
         _case(1, [Fraction(3, 4), Fraction(1, 4), Fraction(1, 2)], [2, 3], 2, 8, 6,
               [Fraction(j, 8) for j in (1, 2, 3, 2, 4, 5)], "delta with len(motif_sizes) != len(probs)"),
     ]
+    q = Fraction(1, 4)
+    base = _case(0, [h, q], [2, 3], 1, 4, 0, [h, q, h], "history: probs edited in place, then table damaged")
+    base["history"] = [
+        {"probs": [_q(q), _q(h)], "motif_sizes": [2, 3], "lo": 1, "hi": 4, "fps": [_q(h), _q(q), _q(h)],
+         "damage": "none"},
+        {"probs": [_q(q), _q(h)], "motif_sizes": [2, 3], "lo": 1, "hi": 4, "fps": [_q(h), _q(q), _q(h)],
+         "damage": "bogus"},
+        {"probs": [_q(h), _q(h), _q(q)], "motif_sizes": [2, 3, 4], "lo": 0, "hi": 6,
+         "fps": [_q(Fraction(j, 8)) for j in (1, 2, 0, 3, 1, 1)], "damage": "rows"},
+    ]
+    out.append(base)
+    d = _case(1, [h, q], [2, 3], 1, 5, 3, [h, q, h, q], "history: delta, bounds moved in place, returned table cleared")
+    d["history"] = [
+        {"probs": [_q(h), _q(q)], "motif_sizes": [2, 3], "lo": 2, "hi": 6, "fps": [_q(q), _q(h), _q(h), _q(q)],
+         "damage": "clear"},
+        {"probs": [_q(q), _q(q)], "motif_sizes": [2, 3], "lo": 2, "hi": 6, "fps": [_q(q), _q(h), _q(h), _q(q)],
+         "damage": "setter"},
+    ]
+    out.append(d)
     return out
 
 
@@ -137,6 +160,60 @@ def _rand_case(rng, maxw, maxhi):
     target = rng.randint(lo - 2, hi + 1)
     fps = _rand_fps(rng, hi - lo)
     return _case(mode, probs, sizes, lo, hi, target, fps)
+
+
+DAMAGE = ["none", "clear", "bogus", "rows", "setter"]
+
+
+def _valid_phase(rng, mode, T_choices=(1, 2, 2, 3, 3, 4), maxhi=11):
+    """a phase that certainly meets the hypotheses (p0 > 0, other probs >= 0, fp >= 0 not all zero, M >= 1):
+    C07_hypotheses_of_probabilities"""
+    T = rng.choice(T_choices)
+    lo = rng.randint(0, 7)
+    hi = min(maxhi, lo + rng.randint(1, 4))
+    probs = _rand_probs(rng, T)
+    if probs[0] == 0:
+        probs[0] = Fraction(rng.randint(1, 15), 16)
+    sizes = [i + 2 for i in range(T)]
+    if mode == 1 and rng.random() < 0.2:
+        sizes = [i + 2 for i in range(rng.randint(1, 4))]
+    fps = [Fraction(rng.randint(0, 31), 32) for _ in range(hi - lo)]
+    if sum(fps) == 0:
+        fps[rng.randrange(len(fps))] = Fraction(1, 2)
+    return {"probs": [_q(x) for x in probs], "motif_sizes": sizes, "lo": lo, "hi": hi, "fps": [_q(f) for f in fps]}
+
+
+def _history_case(rng):
+    """call, let the caller edit the SAME input objects in place and / or damage the returned table, call again"""
+    mode = rng.choice([0, 1])
+    ph0 = _valid_phase(rng, mode)
+    steps = []
+    prev = ph0
+    for _ in range(rng.randint(1, 3)):
+        r = rng.random()
+        if r < 0.25:
+            ph = dict(prev)                      # identical repeat (a cache keyed too coarsely must not matter)
+        elif r < 0.5:
+            ph = dict(prev)                      # only the probabilities change, in place, same length
+            ps = _rand_probs(rng, len(prev["probs"]))
+            if ps[0] == 0:
+                ps[0] = Fraction(3, 16)
+            ph["probs"] = [_q(x) for x in ps]
+        elif r < 0.65:
+            ph = dict(prev)                      # only fp's table changes
+            fps = [Fraction(rng.randint(0, 31), 32) for _ in prev["fps"]]
+            if sum(fps) == 0:
+                fps[0] = Fraction(1, 4)
+            ph["fps"] = [_q(f) for f in fps]
+        else:
+            ph = _valid_phase(rng, mode)         # everything changes (other T, other range)
+        ph["damage"] = rng.choice(DAMAGE)
+        steps.append(ph)
+        prev = {k: v for k, v in ph.items() if k != "damage"}
+    target = rng.randint(ph0["lo"] - 1, ph0["hi"])
+    c = {"mode": mode, "probs": ph0["probs"], "motif_sizes": ph0["motif_sizes"], "lo": ph0["lo"], "hi": ph0["hi"],
+         "target": target, "fps": ph0["fps"], "tag": "history", "history": steps}
+    return c
 
 
 def _malformed(rng):
@@ -217,8 +294,12 @@ def generate(rng, tier):
     for c in _malformed(rng):
         yield c
     n = 500 if quick else 6000
-    for _ in range(n):
-        yield _rand_case(rng, 5 if quick else 7, 12 if quick else 14)
+    for i in range(n):
+        # a quarter of the random cases are histories on one object
+        if i % 4 == 3:
+            yield _history_case(rng)
+        else:
+            yield _rand_case(rng, 5 if quick else 7, 12 if quick else 14)
     if not quick:
         for c in _malformed(rng):
             yield c
@@ -235,23 +316,39 @@ def _table(jdd):
     return rows
 
 
+def _phases(case):
+    """phase 0 = the case itself; later phases = what the caller turned the SAME input objects into"""
+    base = {"probs": case["probs"], "motif_sizes": case["motif_sizes"], "lo": case["lo"], "hi": case["hi"],
+            "fps": case["fps"], "damage": "none"}
+    return [base] + [dict(ph) for ph in case.get("history", [])]
+
+
+def _floats(qs):
+    return [float(Fraction(n, d)) for n, d in qs]
+
+
 def impl(case):
     from gcmpy.joint_degree.joint_degree_distribution import JointDegreeDistribution
     from gcmpy.joint_degree.joint_degree_loaders.joint_degree_delta import JointDegreeDelta
     from gcmpy.joint_degree.joint_degree_loaders.joint_degree_split_degree import JointDegreeSplitDegree
     from gcmpy.names.joint_degree_names import JointDegreeNames as N
 
+    phases = _phases(case)
+    hist = len(phases) > 1
     lo, hi = case["lo"], case["hi"]
-    tab = {lo + i: float(Fraction(n, d)) for i, (n, d) in enumerate(case["fps"])}
-    calls = []
+    # the caller's objects: they stay the SAME objects through the whole history
+    tab = {lo + i: x for i, x in enumerate(_floats(case["fps"]))}
+    probs_obj = _floats(case["probs"])
+    sizes_obj = list(case["motif_sizes"])
+    bound_obj = [lo, hi] if hist else (lo, hi)   # a list when the caller is going to move the bounds in place
 
     def fp(k):
-        calls.append(k)
         return tab.get(k, 0.0)
 
-    def params():
-        p = {N.FP: fp, N.PROBS: [float(Fraction(n, d)) for n, d in case["probs"]],
-             N.MOTIF_SIZES: list(case["motif_sizes"]), N.LOW_HIGH_DEGREE_BOUND: (lo, hi)}
+    def params(own=True):
+        p = {N.FP: fp, N.PROBS: probs_obj if own else list(probs_obj),
+             N.MOTIF_SIZES: sizes_obj if own else list(sizes_obj),
+             N.LOW_HIGH_DEGREE_BOUND: bound_obj if own else tuple(bound_obj)}
         if case["mode"] == 1:
             p[N.TARGET_K] = case["target"]
         return p
@@ -260,7 +357,7 @@ def impl(case):
     # a decoy instance with other parameters first: state leaking between instances (class-level or
     # module-level caches) then shows up inside this one case, so that every replay is self-contained
     try:
-        dp = params()
+        dp = params(own=False)
         dp[N.FP] = lambda k: 0.25 + 0.125 * (k % 3)
         dp[N.PROBS] = [0.375] + [0.625] * max(0, len(case["probs"]) - 1)
         dp[N.LOW_HIGH_DEGREE_BOUND] = (max(0, lo - 1), hi + 1)
@@ -269,34 +366,113 @@ def impl(case):
         cls(dp)
     except Exception:  # noqa: BLE001 - the decoy's own outcome is irrelevant
         pass
-    obj = cls(params())
-    t1 = _table(obj.jdd)
-    obj.create_jdd()
-    t2 = _table(obj.jdd)
-    p3 = params()
-    p3[N.JOINT_DEGREE_TYPE] = "split_degree" if case["mode"] == 0 else "delta"
-    obj3 = JointDegreeDistribution.load_joint_degree(p3)
-    t3 = _table(obj3.jdd)
-    return {"tables": [t1, t2, t3], "motif_sizes": list(obj3.motif_sizes)}
+
+    out = []
+    damaged = []
+
+    def inputs_intact(ph, p0):
+        """the code must leave the caller's objects exactly as the caller wrote them (content and order)"""
+        want_b = [ph["lo"], ph["hi"]]
+        if probs_obj != _floats(ph["probs"]):
+            damaged.append(f"probs list changed to {probs_obj}")
+        if sizes_obj != list(ph["motif_sizes"]):
+            damaged.append(f"motif_sizes list changed to {sizes_obj}")
+        if list(bound_obj) != want_b:
+            damaged.append(f"degree bound changed to {list(bound_obj)}")
+        if tab != {ph["lo"] + i: x for i, x in enumerate(_floats(ph["fps"]))}:
+            damaged.append("fp's table changed")
+        if p0 is not None:
+            if list(p0.keys()) != p0_keys or p0[N.PROBS] is not probs_obj or p0[N.MOTIF_SIZES] is not sizes_obj \
+                    or p0[N.FP] is not fp:
+                damaged.append("params dict changed")
+
+    # ---- phase 0: constructor, second create_jdd(), dispatch through load_joint_degree
+    obj = None
+    try:
+        p0 = params()
+        p0_keys = list(p0.keys())
+        obj = cls(p0)
+        t1 = _table(obj.jdd)
+        obj.create_jdd()
+        t2 = _table(obj.jdd)
+        p3 = params(own=False)
+        p3[N.JOINT_DEGREE_TYPE] = "split_degree" if case["mode"] == 0 else "delta"
+        obj3 = JointDegreeDistribution.load_joint_degree(p3)
+        t3 = _table(obj3.jdd)
+        out.append({"tables": [t1, t2, t3]})
+        inputs_intact(phases[0], p0)
+        if list(obj3.motif_sizes) != list(case["motif_sizes"]):
+            damaged.append("motif_sizes property differs from the input")
+    except core.ImplTimeout:
+        raise
+    except Exception as e:  # noqa: BLE001
+        out.append({"exc": type(e).__name__})
+        return {"phases": out, "damaged": damaged}
+
+    # ---- later phases: the caller damages what was returned and / or edits the inputs IN PLACE, then asks the
+    # SAME object again; every answer is judged against the model on the CURRENT contents
+    for ph in phases[1:]:
+        try:
+            dmg = ph.get("damage", "none")
+            if dmg == "clear":
+                obj.jdd.clear()
+            elif dmg == "bogus":
+                d = obj.jdd
+                for key in list(d)[:2]:
+                    d[key] = d[key] * 3.0 + 1.0
+                d[(97,) * max(1, len(sizes_obj))] = 5.0
+            elif dmg == "rows":
+                for k in range(bound_obj[0], bound_obj[1]):
+                    rows = list(obj.get_valid_joint_degrees(k, len(probs_obj))) if probs_obj else []
+                    for r in rows:
+                        if r:
+                            r[0] += 1
+                            r.append(7)
+                    del rows[:]
+            elif dmg == "setter":
+                obj.jdd = {(1,) * max(1, len(sizes_obj)): 1.0}
+            probs_obj[:] = _floats(ph["probs"])
+            sizes_obj[:] = list(ph["motif_sizes"])
+            bound_obj[0], bound_obj[1] = ph["lo"], ph["hi"]
+            tab.clear()
+            tab.update({ph["lo"] + i: x for i, x in enumerate(_floats(ph["fps"]))})
+            obj.create_jdd()
+            out.append({"tables": [_table(obj.jdd)]})
+            inputs_intact(ph, None)
+        except core.ImplTimeout:
+            raise
+        except Exception as e:  # noqa: BLE001
+            out.append({"exc": type(e).__name__})
+            break
+    return {"phases": out, "damaged": damaged}
 
 
 # ------------------------------------------------------------------ model
-def _tree(case):
-    return [case["mode"], case["probs"], len(case["motif_sizes"]), case["lo"], case["hi"], case["target"],
-            case["fps"]]
+def _tree(case, ph):
+    return [case["mode"], ph["probs"], len(ph["motif_sizes"]), ph["lo"], ph["hi"], case["target"], ph["fps"]]
+
+
+def _obs_phases(impl_obs):
+    """the implementation's phases; a top-level exception (time-out, harness trouble) counts as phase 0"""
+    if core.is_exc(impl_obs):
+        return [{"exc": impl_obs[1]}]
+    return impl_obs["phases"]
 
 
 def model_calls(case, impl_obs):
-    return [("c07_run", _tree(case))]
+    return [("c07_run", _tree(case, ph)) for ph in _phases(case)]
 
 
 def model_obs(case, raws):
-    r = raws[0]
-    if r[0] == -1:
-        return ["!exc", ERR.get(r[1], f"code{r[1]}")]
-    rows = [[k, v] for k, v in r[1]]
-    rows.sort(key=lambda x: (len(x[0]), x[0]))
-    return {"table": rows}
+    out = []
+    for r in raws:
+        if r[0] == -1:
+            out.append({"exc": ERR.get(r[1], f"code{r[1]}")})
+        else:
+            rows = [[k, v] for k, v in r[1]]
+            rows.sort(key=lambda x: (len(x[0]), x[0]))
+            out.append({"table": rows})
+    return {"phases": out}
 
 
 def _cmp_table(t, m, which):
@@ -311,50 +487,79 @@ def _cmp_table(t, m, which):
     return None
 
 
+NAMES0 = ("constructor", "second create_jdd()", "load_joint_degree")
+
+
+def _names(i):
+    return NAMES0 if i == 0 else (f"create_jdd() of history step {i}",)
+
+
 def compare(case, impl_obs, model):
-    ie, me = core.is_exc(impl_obs), core.is_exc(model)
-    if ie or me:
-        if ie and me:
-            return None if impl_obs[1] == model[1] else f"exception class: impl {impl_obs[1]} model {model[1]}"
-        return f"impl {'raised ' + impl_obs[1] if ie else 'returned a table'}, model " \
-               f"{'raises ' + model[1] if me else 'returns a table'}"
-    if isinstance(model, list):
+    if not isinstance(model, dict):
         return f"model decode: {model}"
-    for name, t in zip(("constructor", "second create_jdd()", "load_joint_degree"), impl_obs["tables"]):
-        d = _cmp_table(t, model["table"], name)
-        if d:
-            return d
-    if impl_obs["motif_sizes"] != case["motif_sizes"]:
-        return "motif_sizes changed"
+    iph = _obs_phases(impl_obs)
+    for i, (a, m) in enumerate(zip(iph, model["phases"])):
+        ie, me = "exc" in a, "exc" in m
+        if ie or me:
+            if ie and me:
+                if a["exc"] != m["exc"]:
+                    return f"phase {i}: exception class: impl {a['exc']} model {m['exc']}"
+                break  # both stop here
+            return f"phase {i}: impl {'raised ' + a['exc'] if ie else 'returned a table'}, model " \
+                   f"{'raises ' + m['exc'] if me else 'returns a table'}"
+        for name, t in zip(_names(i), a["tables"]):
+            d = _cmp_table(t, m["table"], name)
+            if d:
+                return d
+    else:
+        if len(iph) != len(model["phases"]):
+            return f"{len(iph)} phases observed, {len(model['phases'])} expected"
+    if not core.is_exc(impl_obs) and impl_obs["damaged"]:
+        return "caller's inputs damaged: " + "; ".join(impl_obs["damaged"][:3])
     return None
 
 
 # ------------------------------------------------------------------ verified checker on the implementation's tables
 def check_calls(case, impl_obs):
-    base = _tree(case) + [EPS]
-    if core.is_exc(impl_obs):
-        return [("c07_check", base + [[]])]
-    return [("c07_check", base + [t]) for t in impl_obs["tables"]]
+    calls = []
+    for ph, a in zip(_phases(case), _obs_phases(impl_obs)):
+        base = _tree(case, ph) + [EPS]
+        if "exc" in a:
+            calls.append(("c07_check", base + [[]]))   # only to learn whether the hypotheses hold (answer 2 = no)
+        else:
+            calls += [("c07_check", base + [t]) for t in a["tables"]]
+    return calls
 
 
 def check_verdict(case, impl_obs, raws):
-    if core.is_exc(impl_obs):
-        if raws and raws[0] == 2:
-            return None  # outside the hypotheses of the property: the exception class is compared instead
-        return f"implementation raised {impl_obs[1]} on an input the property covers"
-    names = ("constructor", "second create_jdd()", "load_joint_degree")
-    for name, r in zip(names, raws):
-        if r == 0:
-            return f"c07_check rejected the table observed after {name}"
-        if r not in (1, 2):
-            return f"checker answered {r!r}"
+    pos = 0
+    for i, a in enumerate(_obs_phases(impl_obs)):
+        if "exc" in a:
+            if raws[pos] == 2:
+                return None  # outside the hypotheses of the property: the exception class is compared instead
+            return f"implementation raised {a['exc']} on an input the property covers (phase {i})"
+        for name in _names(i)[:len(a["tables"])]:
+            r = raws[pos]
+            pos += 1
+            if r == 0:
+                return f"c07_check rejected the table observed after {name}"
+            if r not in (1, 2):
+                return f"checker answered {r!r}"
     return None
 
 
-def nontrivial_key(case, impl_obs):
+def _tables0(impl_obs):
     if core.is_exc(impl_obs):
         return None
-    t = impl_obs["tables"][0]
+    a = impl_obs["phases"][0]
+    return None if "exc" in a else a["tables"]
+
+
+def nontrivial_key(case, impl_obs):
+    ts = _tables0(impl_obs)
+    if ts is None:
+        return None
+    t = ts[0]
     deg = {}
     for k, _ in t:
         d = sum((i + 1) * x for i, x in enumerate(k))
@@ -370,6 +575,15 @@ def shrink(case):
     lo, hi = case["lo"], case["hi"]
     n = len(case["fps"])
     case = dict(case, tag="shrunk")
+    hist = case.get("history") or []
+    if hist:
+        yield {k: v for k, v in case.items() if k != "history"}
+        for i in range(len(hist)):
+            yield dict(case, history=hist[:i] + hist[i + 1:])
+        for i, ph in enumerate(hist):
+            if ph.get("damage", "none") != "none":
+                yield dict(case, history=hist[:i] + [dict(ph, damage="none")] + hist[i + 1:])
+        return
     if n > 1:
         yield dict(case, hi=hi - 1, fps=case["fps"][:-1])
         yield dict(case, lo=lo + 1, fps=case["fps"][1:])
@@ -396,12 +610,17 @@ def describe(case, impl_obs):
          "range": [case["lo"], case["hi"]], "fp": [f"{n}/{m}" for n, m in case["fps"]][:8]}
     if case["mode"] == 1:
         d["target"] = case["target"]
-    if core.is_exc(impl_obs):
-        d["raised"] = impl_obs[1]
+    if case.get("history"):
+        d["history"] = [{"damage": ph.get("damage"), "probs": [f"{n}/{m}" for n, m in ph["probs"]],
+                         "motif_sizes": ph["motif_sizes"], "range": [ph["lo"], ph["hi"]]} for ph in case["history"]]
+    ts = _tables0(impl_obs)
+    if ts is None:
+        d["raised"] = _obs_phases(impl_obs)[0].get("exc")
     else:
-        t = impl_obs["tables"][0]
-        d["n_keys"] = len(t)
-        d["table_head"] = [[k, float(core.tree_q(v))] for k, v in t[:6]]
+        d["n_keys"] = len(ts[0])
+        d["table_head"] = [[k, float(core.tree_q(v))] for k, v in ts[0][:6]]
+        d["later_phases"] = [("raised " + a["exc"]) if "exc" in a else len(a["tables"][0])
+                             for a in impl_obs["phases"][1:]]
     return d
 
 
@@ -422,6 +641,13 @@ def histogram(cases):
         tops[len(c["probs"])] = tops.get(len(c["probs"]), 0) + 1
         w = max(0, c["hi"] - c["lo"])
         width[w] = width.get(w, 0) + 1
+    h["histories_on_one_object"] = sum(1 for c in cases if c.get("history"))
+    h["history_steps"] = sum(len(c.get("history") or []) for c in cases)
+    dm = {}
+    for c in cases:
+        for ph in c.get("history") or []:
+            dm[ph.get("damage", "none")] = dm.get(ph.get("damage", "none"), 0) + 1
+    h["history_damage_kinds"] = dm
     h["exhaustive_small_domain"] = sum(1 for c in cases if c.get("tag") == "exhaustive")
     h["topologies"] = {str(k): v for k, v in sorted(tops.items())}
     h["range_width"] = {str(k): v for k, v in sorted(width.items())}
